@@ -60,7 +60,13 @@ func registerMisc(p *Program) {
 		if t == nil {
 			x.Unsupported("url.ParseRequestURI on a content string")
 		}
-		if x.Branch(x.B.App("valid_request_uri", 0, t)) {
+		if s.IsConst && s.S == "" {
+			return TupleV{PtrV{}, x.newErr("url", "empty url")}
+		}
+		// url.ParseRequestURI rejects the empty string
+		ok := x.B.App("valid_request_uri", 0, t)
+		x.Assume(x.B.Implies(ok, x.B.Not(x.B.Eq(t, x.B.StrConst("")))), "a valid request URI is not empty")
+		if x.Branch(ok) {
 			return TupleV{PtrV{Obj: x.newObj(OpaqueV{Kind: "url"}, "url")}, IfaceV{}}
 		}
 		return TupleV{PtrV{}, x.newErr("url", "invalid URI for request")}
